@@ -39,9 +39,21 @@ def gen_script(rng, tier):
     return '\n'.join(L) + '\n'
 
 
+def gen_lock_script(rng, tier):
+    """Default mode (duplicates disallowed: the duplicate check re-enters the storage lock), many clients on the
+    multi-thread runtime, one operation in six a storage-lock WRITER (close / force_update / free_excess): no
+    operation may hang."""
+    tasks = rng.choice([16, 32, 64])
+    L = ['cfg K=4 dup=0 group=%d bloom=none init=eager runtime=mt maxrec=%d' % (rng.choice([2, 8]), rng.choice([30, 100000])), 'open', 'sleep 210']
+    L.append('par tasks=%d ops=%d keys=%d seed=%d kinds=%s base=1000' % (tasks, rng.choice([100, 200]), rng.choice([3, 50]), rng.randrange(1, 10**6), rng.choice(['WWWWWM', 'WWWM', 'WWRM'])))
+    L.append('quiesce')
+    L += ['R 00000001', 'counts', 'close']
+    return '\n'.join(L) + '\n'
+
+
 def gen(tier, rng):
     n = 60 if tier == 'quick' else 800
-    return [('conc%05d' % i, gen_script(rng, tier)) for i in range(n)]
+    return [('conc%05d' % i, gen_script(rng, tier)) for i in range(n)] + [('lock%05d' % i, gen_lock_script(rng, tier)) for i in range(n // 6)]
 
 
 def parse_par(o):
@@ -63,6 +75,11 @@ def oracle(lines, io, spec=None):
         tag = '[F10] ' if (m and int(m.group(1)) > 1024) else ''
         return [tag + 'concurrent operations did not finish (deadlock?): %s' % lines[pi]]
     evs = parse_par(io[pi])
+    if 'dup=0' in lines[0] and any(e['kind'] in ('R', 'C') for e in evs):
+        # default mode with readers: a write of an existing key is acknowledged without being stored, the window
+        # check below does not apply; only liveness and error classes are judged here
+        bad = [e for e in evs if (e['kind'] == 'W' and e['c'] not in ('ok', 'Err_ActiveBlobNotSet')) or (e['kind'] in ('R', 'C') and e['a'].startswith('Err'))]
+        return ['operation failed under concurrency: %s' % bad[0]] if bad else []
     pre = {}     # key index -> list of (ts, kind) existing before par (script-level W before)
     for l in lines[:pi]:
         t = l.split()
